@@ -33,6 +33,34 @@ DIRS = [("row", "row"), ("col", "column"), ("table", "table")]
 KINDS2 = ["cat", "cat", "cat", "cat", "cat_date", "cat_date", "cat_date", "mr", "mr", "mr", "text", "binned", "datetime"]
 
 
+EXTRA_SETS = [["weighted_squared_count"], ["weighted_squared_count"], ["weighted_squared_count"], ["sum"], ["mean"],
+              ["weighted_squared_count", "sum"], ["weighted_squared_count", "mean"], ["mean", "sum"]]
+PRE_READS = ["pairwise_indices", "pairwise_significance_tests", "columns_scale_mean_pairwise_indices", "counts",
+             "column_weighted_bases", "columns_base", "sums", "means"]
+
+
+def extra_measures(case, vars_, survey):
+    """{measure name: flat payload} of the additional measures of the case (same raw layout as the counts).
+    weighted_squared_count = sum of squared weights per raw cell (x K for the K-fold replicated survey);
+    sum / mean: of a dyadic per-respondent value (mean `{"?": -8}` where the cell is empty)"""
+    extras = case.get("extras") or []
+    if not extras:
+        return None
+    k = case.get("scale", 1)
+    ws = survey if case["weighted"] else [(Fraction(1), a) for _, a in survey]
+    out = {}
+    if "weighted_squared_count" in extras:
+        out["weighted_squared_count"] = [gen.num(x * k) for x in gen.tabulate(vars_, [(w * w, a) for w, a in ws], True)]
+    if "sum" in extras or "mean" in extras:
+        sums = gen.tabulate(vars_, [(w * Fraction(i % 7 - 2, 2), a) for i, (w, a) in enumerate(ws)], True)
+        cnts = gen.tabulate(vars_, ws, True)
+        if "sum" in extras:
+            out["sum"] = [gen.num(x * k) for x in sums]
+        if "mean" in extras:
+            out["mean"] = [float(x / c) if c != 0 else {"?": -8} for x, c in zip(sums, cnts)]
+    return out
+
+
 def gen_case(rng):
     shape = rng.choice(["strand", "2d", "2d", "2d", "2d", "3d"])
     if shape == "strand":
@@ -68,9 +96,21 @@ def gen_case(rng):
         pairwise = {"alpha": rng.choice([[0.1], [0.01], [0.01, 0.2], [0.2, 0.1], [0.001], [0.5]])}
         if rng.random() < 0.5:
             pairwise["only_larger"] = rng.random() < 0.5
-    return {"vars": [v.to_json() for v in vars_], "survey": gen.survey_to_json(survey), "weighted": weighted,
+    case = {"vars": [v.to_json() for v in vars_], "survey": gen.survey_to_json(survey), "weighted": weighted,
             "row_ins": row_ins, "col_ins": col_ins, "scale": su.pick_scale(rng, 0.12), "pairwise": pairwise,
             "wregime": regime}
+    # measures the back end sends ALONG with the counts when the analysis asks for something else as well (squared
+    # weights for the pairwise column tests, a numeric sum / mean of the same table): the statistics of the proportions
+    # are functions of the weighted counts alone, whatever else the response carries; `pre_reads`: what the same
+    # front-end request reads first (the pairwise results built on the squared weights, the numeric measure)
+    extras, pre = [], []
+    if rng.random() < (0.4 if weighted else 0.15):
+        extras = rng.choice(EXTRA_SETS)
+        if rng.random() < 0.5:
+            pre = [a for a in PRE_READS if rng.random() < 0.5]
+    case["extras"] = extras
+    case["pre_reads"] = pre
+    return case
 
 
 def generate(ctx):
@@ -199,7 +239,11 @@ def evaluate(case, louts, ctx):
     if z != cubepart.Z_975:
         findings.append({"kind": "spec", "locus": "moe.constant",
                          "detail": "cubepart.Z_975=%r but the property says %r" % (cubepart.Z_975, z)})
-    resp = su.scale_response(gen.cube_response(vars_, survey, case["weighted"]), case.get("scale", 1))
+    resp = su.scale_response(gen.cube_response(vars_, survey, case["weighted"],
+                                               extra_measures=extra_measures(case, vars_, survey)),
+                             case.get("scale", 1))
+    if case.get("extras"):
+        ctx.count("cases_with_extra_measures:" + "+".join(case["extras"]))
     if case.get("scale", 1) > 1:
         ctx.count("large_sample_cases:%s" % ("weighted" if case["weighted"] else "unweighted"))
     tr = su.transforms_of(case["row_ins"], case["col_ins"], pairwise=case.get("pairwise"))
@@ -286,6 +330,8 @@ def evaluate(case, louts, ctx):
         for k in range(nparts):
             outs = louts[1 + k]
             sl = cube.partitions[k]
+            for a in case.get("pre_reads") or []:
+                common.call_impl(lambda: getattr(sl, a))        # may legitimately raise; only its side effects matter
             ro = common.call_impl(lambda: sl.row_order().tolist())
             co = common.call_impl(lambda: sl.column_order().tolist())
             if isinstance(ro, dict) or isinstance(co, dict) or len(ro) != nr or len(co) != nc:
@@ -329,7 +375,7 @@ def describe(case):
     return {"kinds": [v.kind for v in vars_], "missing_flags": [v.cat_missing for v in vars_],
             "n_respondents": len(survey), "weighted": case["weighted"],
             "row_ins": case["row_ins"], "col_ins": case["col_ins"], "pairwise": case.get("pairwise"),
-            "scale": case.get("scale", 1), "first_respondents": case["survey"][:3]}
+            "extras": case.get("extras"), "pre_reads": case.get("pre_reads"), "scale": case.get("scale", 1), "first_respondents": case["survey"][:3]}
 
 
 def shrink_candidates(case):
@@ -345,6 +391,11 @@ def shrink_candidates(case):
         yield dict(case, scale=1)
     if case.get("pairwise") is not None:
         yield dict(case, pairwise=None)
+    if case.get("pre_reads"):
+        yield dict(case, pre_reads=[])
+    ex = case.get("extras") or []
+    for i in range(len(ex)):
+        yield dict(case, extras=ex[:i] + ex[i + 1:])
 
 
 THEOREMS = [
